@@ -218,12 +218,20 @@ def history_oracle(ctx):
         env = dict(os.environ)
 
         def run(steps):
-            p = subprocess.run([sys.executable, "-c", HISTORY_RUNNER % str(common.REPO)], input=json.dumps(steps), capture_output=True, text=True, timeout=300, env=env)
+            # -P: no implicit current directory on sys.path (as under `python -m`, an installed console script or a worker of the pool): the resolver's own
+            # handling of the working directory is then what decides which file a module name denotes
+            p = subprocess.run([sys.executable, "-P", "-c", HISTORY_RUNNER % str(common.REPO)], input=json.dumps(steps), capture_output=True, text=True, timeout=300, env=env)
             try:
                 return json.loads(p.stdout)
             except Exception:  # noqa: BLE001
                 return None
-        for first, second in ((("one", c1), ("two", c2)), (("two", c1), ("one", c2))):
+        # first steps that make module resolution fail on the way (a dotted import whose parent package is missing, a missing module behind a star
+        # import, a relative import outside a package): whatever the resolver does to the process on those paths must be undone
+        failing = ["import missingpkg.sub\nfrom shim import load\nprint(load(1))\n", "from missingpkg.sub.deep import thing\nprint(thing)\n", "from nothere import *\nfrom shim import load\nprint(load(1))\n",
+                   "from . import sibling\nfrom shim import *\nprint(load(1))\n", "import os.path.nothing\nfrom shim import *\nprint(load(1))\n"]
+        pairs = [(("one", c1), ("two", c2)), (("two", c1), ("one", c2))]
+        pairs += [(("one", f), ("two", c2)) for f in failing] + [(("two", failing[0]), ("one", c2))]
+        for first, second in pairs:
             s.cases += 1
             s.nt([first[0], second[0]])
             both = run([[str(base / first[0]), first[1]], [str(base / second[0]), second[1]]])
@@ -235,7 +243,8 @@ def history_oracle(ctx):
                                         "what": f"re-export tracing of a client in checkout '{second[0]}' after another client in checkout '{first[0]}' (same process) differs from a fresh process: {both[1]!r} vs {fresh[0]!r}"})
     finally:
         shutil.rmtree(base, ignore_errors=True)
-    s.note = "two checkouts where `shim` re-exports `load` from different modules; client 1 traced in one, then client 2 (different text) in the other, same process, vs a fresh process"
+    s.note = ("two checkouts where `shim` re-exports `load` from different modules; client 1 traced in one - also clients whose imports cannot be resolved (missing parent package, missing module behind a star import, "
+              "relative import outside a package) - then client 2 (different text) in the other, same process, vs a fresh process")
     return s
 
 
